@@ -188,9 +188,9 @@ Proof.
     pose proof (eval_idx_same s s' i Hs) as Hi.
     destruct (eval_idx rx all_matches s i) as [[a k]| | |], (eval_idx rx all_matches s' i) as [[b k']| | |];
       cbn [rbind same_res]; try contradiction; auto.
-    destruct Hi as [Hab _].
-    pose proof (set_field_same a b 0 t Hab) as Hg.
-    destruct (set_field rx all_matches a 0 t), (set_field rx all_matches b 0 t);
+    destruct Hi as [Hab <-].
+    pose proof (set_field_same a b k t Hab) as Hg.
+    destruct (set_field rx all_matches a k t), (set_field rx all_matches b k t);
       cbn [rbind same_res]; try contradiction; auto.
   - (* ModField *)
     pose proof (eval_idx_same s s' i Hs) as Hi.
